@@ -88,6 +88,8 @@ def check(ck, F, rule, prefixes, floor):
         fn = F.resolve(fid)
         if fn is None or "mir" not in fn:
             continue
+        if flow.calls_new_function(F, fn):
+            continue
         cur = accumulators(fn)
         for v in vars_:
             key = "%s#%s" % (fid, v)
@@ -192,7 +194,7 @@ def check2(ck, F, rule, prefixes, floor):
         if fn is None or "mir" not in fn:
             continue
         cur = self_updates(fn)
-        if cur is None:
+        if cur is None or flow.calls_new_function(F, fn):
             continue
         for v in vars_:
             key = "%s#%s" % (fid, v)
